@@ -5,6 +5,8 @@ CONSTANTS
   ForkAt = 2
   Proofs = {"correct"}
   Aliases = {"bits", "nl", "nopad", "urlsafe", "space"}
+  DonorIdfs = {"absent", "right", "wrong"}
+  ForgedIdfs = {"absent", "right", "wrong"}
 INIT TraceInit
 NEXT TraceNext
 VIEW TraceView
